@@ -181,6 +181,14 @@ func taskStorageWrites(c *an.Ctx, rule string) {
 					nBad++
 					c.Bad(rule, an.Short(f)+":map-write(task)", x.Pos(), "%s writes an entry of a map that belongs to a task it did not build (%s): the per-stage copy of a task shares its maps with the task in the configuration, so every other stage, pipeline or direct run that uses the task sees the write", an.Short(f), an.Prov(x.Map))
 				}
+			case *ssa.Call:
+				if b, ok := x.Call.Value.(*ssa.Builtin); ok && b.Name() == "append" && len(x.Call.Args) > 0 {
+					n++
+					if backed(x.Call.Args[0], 0) {
+						nBad++
+						c.Bad(rule, an.Short(f)+":append(task)", x.Pos(), "%s appends to a slice that belongs to a task it did not build (%s): with spare capacity — always so after a re-slice like s[:0] — the append overwrites elements of the array the configured task still uses", an.Short(f), an.Prov(x.Call.Args[0]))
+					}
+				}
 			case *ssa.Store:
 				ia, ok := x.Addr.(*ssa.IndexAddr)
 				if !ok {
